@@ -25,7 +25,13 @@ def make_interp(prog):
         for con in cons:
             if con.modular:
                 modular[key] = con
-    interp = Interp(prog, contracts=modular, stdlib=Stdlib())
+    lib = Stdlib()
+    try:
+        from contracts import models_ext
+        models_ext.register(lib)       # assumed contracts of segyio handles etc. live next to the contracts that use them
+    except ImportError:
+        pass
+    interp = Interp(prog, contracts=modular, stdlib=lib)
     from . import loops
     loops.install(interp, reg)
     return interp
